@@ -2,6 +2,7 @@
 C03 — helper lemmas: the balance invariant between Provision and Cleanup events.
 -/
 import CaddyModel.C03.Model
+import CaddyModel.C01.Lemmas
 
 set_option linter.unusedSimpArgs false
 set_option linter.unusedVariables false
@@ -281,5 +282,501 @@ theorem loadApps_bal (cid : Nat) (G : List Inst) : ∀ (as : List App) (s : Stat
     cases o with
     | none => exact loadApps_bal cid G as s' live' h1
     | some r => exact h1
+
+/-! phases that append only events about no instance and create no instance -/
+
+structure Quiet (s s' : State) : Prop where
+  ev : ∃ es, s'.events = s.events ++ es ∧ ∀ e ∈ es, evInst e = none
+  nseq : s'.nseq = s.nseq
+
+theorem Quiet.rfl' (s : State) : Quiet s s := ⟨⟨[], by simp, by simp⟩, rfl⟩
+
+theorem Quiet.trans {a b c : State} (h1 : Quiet a b) (h2 : Quiet b c) : Quiet a c := by
+  obtain ⟨⟨e1, h11, h12⟩, h13⟩ := h1
+  obtain ⟨⟨e2, h21, h22⟩, h23⟩ := h2
+  refine ⟨⟨e1 ++ e2, by rw [h21, h11, List.append_assoc], ?_⟩, h23.trans h13⟩
+  intro e he
+  rcases List.mem_append.mp he with he | he
+  · exact h12 e he
+  · exact h22 e he
+
+theorem quiet_ev (s : State) (es : List Ev) (h : ∀ e ∈ es, evInst e = none) : Quiet s (ev s es) :=
+  ⟨⟨es, rfl, h⟩, rfl⟩
+
+theorem Quiet.sb {s s' : State} {L : List Inst} (q : Quiet s s') (h : SB s L) : SB s' L := by
+  obtain ⟨⟨es, h1, h2⟩, h3⟩ := q
+  unfold SB
+  rw [h1, h3]
+  exact Bal.other h es h2
+
+theorem openWriter_quiet (k : Nat) (s : State) : Quiet s (openWriter k s) := by
+  unfold openWriter
+  split
+  · exact ⟨⟨[.wopen k], rfl, by simp [evInst]⟩, rfl⟩
+  · exact ⟨⟨[], by simp, by simp⟩, rfl⟩
+
+theorem closeLogs_quiet : ∀ (ks : List Nat) (s : State), Quiet s (closeLogs ks s)
+  | [], s => Quiet.rfl' s
+  | k :: ks, s => by
+    unfold closeLogs
+    split
+    · refine Quiet.trans ?_ (closeLogs_quiet ks _)
+      exact ⟨⟨[.wclose k], rfl, by simp [evInst]⟩, rfl⟩
+    · refine Quiet.trans ?_ (closeLogs_quiet ks _)
+      exact ⟨⟨[], by simp, by simp⟩, rfl⟩
+
+theorem bindAll_quiet (cid : Nat) (a : App) (blocked : List Nat) : ∀ (l : List Nat) (s : State),
+    Quiet s (bindAll cid a blocked l s).1
+  | [], s => Quiet.rfl' s
+  | ad :: rest, s => by
+    unfold bindAll
+    split
+    · exact Quiet.rfl' s
+    · refine Quiet.trans ?_ (bindAll_quiet cid a blocked rest _)
+      exact ⟨⟨[], by simp, by simp⟩, rfl⟩
+
+theorem closeApp_quiet (cid n : Nat) (s : State) : Quiet s (closeApp cid n s) :=
+  ⟨⟨[], by simp [closeApp], by simp⟩, rfl⟩
+
+theorem startApp_quiet (cid : Nat) (blocked : List Nat) (a : App) (s : State) :
+    Quiet s (startApp cid blocked a s).1 := by
+  unfold startApp
+  split
+  · exact bindAll_quiet _ _ _ _ _
+  · split
+    · exact quiet_ev _ _ (by simp [evInst])
+    · have h := (quiet_ev s [.start cid a.name] (by simp [evInst])).trans
+        (bindAll_quiet cid a blocked a.listen (ev s [.start cid a.name]))
+      generalize bindAll cid a blocked a.listen (ev s [.start cid a.name]) = r at h
+      obtain ⟨s', b⟩ := r
+      cases b with
+      | true => exact h.trans (quiet_ev _ _ (by simp [evInst]))
+      | false => exact (h.trans (closeApp_quiet _ _ _)).trans (quiet_ev _ _ (by simp [evInst]))
+
+theorem stopApp_quiet (cid : Nat) (a : App) (s : State) : Quiet s (stopApp cid a s) := by
+  unfold stopApp; split
+  · exact closeApp_quiet _ _ _
+  · exact (closeApp_quiet _ _ _).trans (quiet_ev _ _ (by simp [evInst]))
+
+theorem stopApps_quiet (cid : Nat) : ∀ (as : List App) (s : State), Quiet s (stopApps cid as s)
+  | [], s => Quiet.rfl' s
+  | a :: as, s => by
+    unfold stopApps
+    exact (stopApp_quiet cid a s).trans (stopApps_quiet cid as _)
+
+theorem startApps_quiet (cid : Nat) (blocked : List Nat) : ∀ (rest started : List App) (s : State),
+    Quiet s (startApps cid blocked started rest s).1
+  | [], _, s => Quiet.rfl' s
+  | a :: rest, started, s => by
+    unfold startApps
+    have h := startApp_quiet cid blocked a s
+    generalize startApp cid blocked a s = r at h
+    obtain ⟨s', b⟩ := r
+    cases b with
+    | true => exact h.trans (startApps_quiet cid blocked rest _ s')
+    | false => exact h.trans (stopApps_quiet _ _ _)
+
+/-! logging -/
+
+theorem openLog_bal (cid idx : Nat) (m : Mod) (s : State) (live : List Live) (wk : List Nat)
+    (G : List Inst) (h : SB s (G ++ nq live)) :
+    SB (openLog cid idx m s live wk).1 (G ++ nq (openLog cid idx m s live wk).2.1) := by
+  unfold openLog
+  split
+  · exact h
+  · unfold openLogAt
+    split
+    · exact Bal.prov_clean h _ rfl
+    · split
+      · exact Bal.prov_valid_clean h _ rfl
+      · simp only [nq_append_probe]
+        refine (openWriter_quiet _ _).sb ?_
+        exact (Bal.prov_valid h _ rfl).perm (perm_snoc _ _ _)
+
+theorem openLogsFrom_bal (cid : Nat) (G : List Inst) : ∀ (ms : List Mod) (idx : Nat) (s : State)
+    (live : List Live) (wk : List Nat), SB s (G ++ nq live) →
+    SB (openLogsFrom cid idx ms s live wk).1 (G ++ nq (openLogsFrom cid idx ms s live wk).2.1)
+  | [], _, _, _, _, h => h
+  | m :: ms, idx, s, live, wk, h => by
+    unfold openLogsFrom
+    have h1 := openLog_bal cid idx m s live wk G h
+    generalize openLog cid idx m s live wk = r at h1
+    obtain ⟨s', live', wk', o⟩ := r
+    cases o with
+    | none => exact openLogsFrom_bal cid G ms (idx + 1) s' live' wk' h1
+    | some r => exact h1
+
+theorem openLogs_bal (cid : Nat) (logs : List Mod) (s : State) (G : List Inst) (h : SB s G) :
+    SB (openLogs cid logs s).1 (G ++ nq (openLogs cid logs s).2.1) := by
+  unfold openLogs
+  apply openLogsFrom_bal
+  have : SB (openWriter 0 (ev s [.cbReg cid])) G :=
+    ((quiet_ev s [.cbReg cid] (by simp [evInst])).trans (openWriter_quiet _ _)).sb h
+  simpa [nq] using this
+
+/-! cancel -/
+
+theorem cleanupOne_bal (l : Live) (s : State) (L : List Inst) (h : SB s L)
+    (hl : l.quiet = false → l.inst ∈ L) :
+    SB (cleanupOne l s) (if l.quiet then L else L.filter (· ≠ l.inst)) := by
+  unfold cleanupOne
+  cases hq : l.quiet with
+  | true =>
+    simp only [if_true]
+    split
+    · exact Quiet.sb (s := s) ⟨⟨[], by simp [ev], by simp⟩, rfl⟩ h
+    · exact Quiet.sb (s := s) ⟨⟨[], by simp [ev], by simp⟩, rfl⟩ h
+  | false =>
+    simp only [Bool.false_eq_true, if_false]
+    split <;> exact Bal.clean h _ (hl hq)
+
+theorem nq_cons (l : Live) (ls : List Live) :
+    nq (l :: ls) = if l.quiet then nq ls else l.inst :: nq ls := by
+  cases hq : l.quiet <;> simp [nq, List.filter_cons, hq]
+
+/-- cleaning up a whole `moduleInstances` list removes exactly its probe instances from the
+    live set -/
+theorem cleanupAll_bal : ∀ (ls : List Live) (s : State) (L : List Inst), SB s L →
+    (∀ i ∈ nq ls, i ∈ L) → (nq ls).Nodup →
+    SB (cleanupAll ls s) (L.filter (fun i => i ∉ nq ls))
+  | [], s, L, h, _, _ => by
+    unfold cleanupAll
+    have : L.filter (fun i => i ∉ nq []) = L := by
+      apply List.filter_eq_self.mpr; intro i _; simp [nq]
+    rw [this]; exact h
+  | l :: ls, s, L, h, hm, hn => by
+    unfold cleanupAll
+    rw [nq_cons] at hm hn
+    cases hq : l.quiet with
+    | true =>
+      simp only [hq, if_true] at hm hn
+      have h1 := cleanupOne_bal l s L h (by simp [hq])
+      simp only [hq, if_true] at h1
+      have := cleanupAll_bal ls _ L h1 hm hn
+      rw [nq_cons]; simp only [hq, if_true]; exact this
+    | false =>
+      simp only [hq, Bool.false_eq_true, if_false] at hm hn
+      have h1 := cleanupOne_bal l s L h (fun _ => hm _ List.mem_cons_self)
+      simp only [hq, Bool.false_eq_true, if_false] at h1
+      obtain ⟨hn1, hn2⟩ := List.nodup_cons.mp hn
+      have h2 := cleanupAll_bal ls _ _ h1 (by
+        intro i hi
+        refine List.mem_filter.mpr ⟨hm i (List.mem_cons_of_mem _ hi), ?_⟩
+        have : i ≠ l.inst := fun e => hn1 (e ▸ hi)
+        simpa using this) hn2
+      rw [nq_cons]; simp only [hq, Bool.false_eq_true, if_false]
+      rw [List.filter_filter] at h2
+      have e : (fun i => decide (i ∉ nq ls) && decide (i ≠ l.inst)) = (fun i => decide (i ∉ l.inst :: nq ls)) := by
+        funext i
+        by_cases h1 : i = l.inst <;> by_cases h2 : i ∈ nq ls <;> simp [h1, h2]
+      rw [e] at h2
+      exact h2
+
+theorem cancel_bal (cid : Nat) (wk : List Nat) (live : List Live) (s : State) (L : List Inst)
+    (h : SB s L) (hm : ∀ i ∈ nq live, i ∈ L) (hn : (nq live).Nodup) :
+    SB (cancel cid [] wk live s) (L.filter (fun i => i ∉ nq live)) := by
+  unfold cancel
+  simp only [List.isEmpty_nil, if_true]
+  exact cleanupAll_bal live s L h hm hn
+
+theorem filter_append_right {G X : List Inst} (h : (G ++ X).Nodup) :
+    (G ++ X).filter (fun i => i ∉ X) = G := by
+  rw [List.filter_append]
+  have hd := (List.nodup_append.mp h).2.2
+  have e1 : G.filter (fun i => decide (i ∉ X)) = G := by
+    apply List.filter_eq_self.mpr
+    intro i hi
+    have : i ∉ X := fun hx => hd i hi i hx rfl
+    simpa using this
+  have e2 : X.filter (fun i => decide (i ∉ X)) = [] := by
+    apply List.filter_eq_nil_iff.mpr
+    intro i hi; simp [hi]
+  rw [e1, e2, List.append_nil]
+
+theorem filter_append_left {G X : List Inst} (h : (G ++ X).Nodup) :
+    (G ++ X).filter (fun i => i ∉ G) = X := by
+  rw [List.filter_append]
+  have hd := (List.nodup_append.mp h).2.2
+  have e1 : X.filter (fun i => decide (i ∉ G)) = X := by
+    apply List.filter_eq_self.mpr
+    intro i hi
+    have : i ∉ G := fun hx => hd i hx i hi rfl
+    simpa using this
+  have e2 : G.filter (fun i => decide (i ∉ G)) = [] := by
+    apply List.filter_eq_nil_iff.mpr
+    intro i hi; simp [hi]
+  rw [e1, e2, List.nil_append]
+
+/-! provisionContext, run -/
+
+theorem cancel_all_bal (cid : Nat) (wk : List Nat) (live : List Live) (s : State) (G : List Inst)
+    (h : SB s (G ++ nq live)) : SB (cancel cid [] wk live s) G := by
+  have hn := h.nodup
+  have := cancel_bal cid wk live s _ h (fun i hi => List.mem_append_right _ hi) (List.nodup_append.mp hn).2.1
+  rwa [filter_append_right hn] at this
+
+theorem provisionContext_bal (cid : Nat) (c : Cfg) (pp : List Nat) (s : State) (G : List Inst)
+    (h : SB s G) :
+    (∀ r, (provisionContext cid c pp s).2.2 = some r → SB (provisionContext cid c pp s).1 G) ∧
+    ((provisionContext cid c pp s).2.2 = none → ∃ ctx, (provisionContext cid c pp s).2.1 = some ctx ∧
+      ctx.cbs = [] ∧ ctx.cid = cid ∧ ctx.apps = c.apps ∧ SB (provisionContext cid c pp s).1 (G ++ nq ctx.live)) := by
+  unfold provisionContext
+  have h1 := openLogs_bal cid c.logs s G h
+  generalize openLogs cid c.logs s = r1 at h1
+  obtain ⟨s1, live1, wk, o1⟩ := r1
+  cases o1 with
+  | some r =>
+    refine ⟨fun _ _ => ?_, fun hh => by simp at hh⟩
+    exact cancel_all_bal cid wk live1 s1 G h1
+  | none =>
+    dsimp only
+    have h2 := loadApps_bal cid G (order pp c.apps) s1 live1 h1
+    generalize loadApps cid (order pp c.apps) s1 live1 = r2 at h2
+    obtain ⟨s2, live2, o2⟩ := r2
+    cases o2 with
+    | some r =>
+      refine ⟨fun _ _ => ?_, fun hh => by simp at hh⟩
+      exact cancel_all_bal cid wk live2 s2 G h2
+    | none =>
+      refine ⟨fun r hh => by simp at hh, fun _ => ⟨_, rfl, rfl, rfl, rfl, h2⟩⟩
+
+theorem finishSettingUp_bal (ctx : Ctx) (post : Bool) (s : State) (G : List Inst)
+    (h : SB s (G ++ nq ctx.live)) :
+    SB (finishSettingUp ctx post s).1 (G ++ nq (finishSettingUp ctx post s).2.1.live) ∧
+    (finishSettingUp ctx post s).2.1.cbs = ctx.cbs ∧ (finishSettingUp ctx post s).2.1.cid = ctx.cid ∧
+    (finishSettingUp ctx post s).2.1.apps = ctx.apps ∧ (finishSettingUp ctx post s).2.1.wkeys = ctx.wkeys := by
+  unfold finishSettingUp finishSettingUpAt
+  cases post with
+  | true => exact ⟨Bal.prov_clean h _ rfl, rfl, rfl, rfl, rfl⟩
+  | false =>
+    refine ⟨?_, rfl, rfl, rfl, rfl⟩
+    simp only [Bool.false_eq_true, if_false, nq_append_probe]
+    have := (Bal.prov h ⟨s.nseq, ctx.cid, 101, 0⟩ rfl).perm (perm_snoc _ _ _)
+    exact this
+
+theorem unsyncedStop_some_bal (ctx : Ctx) (s : State) (G : List Inst) (hc : ctx.cbs = [])
+    (h : SB s (G ++ nq ctx.live)) : SB (unsyncedStop (some ctx) s) G := by
+  unfold unsyncedStop
+  dsimp only
+  rw [hc]
+  exact cancel_all_bal _ _ _ _ G ((stopApps_quiet _ _ _).sb h)
+
+/-- run: a rejected run leaves the live set as it was, an accepted one adds exactly the probe
+    instances of the new context -/
+theorem run_bal (cid : Nat) (c : Cfg) (e : Env) (s : State) (G : List Inst) (h : SB s G) :
+    match (run cid c e s).2.1 with
+    | none => SB (run cid c e s).1 G
+    | some ctx => ctx.cbs = [] ∧ ctx.cid = cid ∧ ctx.apps = c.apps ∧ SB (run cid c e s).1 (G ++ nq ctx.live) := by
+  unfold run
+  have h1 := provisionContext_bal cid c e.pp s G h
+  generalize provisionContext cid c e.pp s = r1 at h1
+  obtain ⟨s1, o1, e1⟩ := r1
+  cases e1 with
+  | some r => exact h1.1 r rfl
+  | none =>
+    obtain ⟨ctx, hctx, hcb, hcid, happs, hb⟩ := h1.2 rfl
+    simp only at hctx
+    subst hctx
+    dsimp only
+    have h2 := (startApps_quiet cid e.blocked (order e.ps ctx.apps) [] s1).sb hb
+    generalize startApps cid e.blocked [] (order e.ps ctx.apps) s1 = r2 at h2
+    obtain ⟨s2, b⟩ := r2
+    cases b with
+    | false =>
+      dsimp only
+      rw [hcb]
+      exact cancel_all_bal cid ctx.wkeys ctx.live s2 G h2
+    | true =>
+      dsimp only
+      have h3 := finishSettingUp_bal ctx e.post s2 G h2
+      generalize finishSettingUp ctx e.post s2 = r3 at h3
+      obtain ⟨s3, ctx', b3⟩ := r3
+      cases b3 with
+      | false =>
+        dsimp only
+        exact unsyncedStop_some_bal ctx' s3 G (h3.2.1.trans hcb) h3.1
+      | true =>
+        dsimp only
+        exact ⟨h3.2.1.trans hcb, h3.2.2.1.trans hcid, h3.2.2.2.1.trans happs, h3.1⟩
+
+/-! ### one operation -/
+
+def nqOpt : Option Ctx → List Inst
+  | none => []
+  | some ctx => nq ctx.live
+
+theorem curLive_eq (s : State) : curLive s = nqOpt s.cur := by
+  unfold curLive nqOpt; cases s.cur <;> rfl
+
+theorem unsyncedStop_bal (old : Option Ctx) (s : State) (X : List Inst)
+    (hc : ∀ ctx, old = some ctx → ctx.cbs = []) (h : SB s (nqOpt old ++ X)) :
+    SB (unsyncedStop old s) X := by
+  cases old with
+  | none => simpa [unsyncedStop, nqOpt] using h
+  | some ctx =>
+    unfold unsyncedStop
+    dsimp only
+    rw [hc ctx rfl]
+    have h1 : SB (stopApps ctx.cid ctx.apps s) (nq ctx.live ++ X) := (stopApps_quiet _ _ _).sb h
+    have hn := h1.nodup
+    have := cancel_bal ctx.cid ctx.wkeys ctx.live _ _ h1 (fun i hi => List.mem_append_left _ hi)
+      (List.nodup_append.mp hn).1
+    rwa [filter_append_left hn] at this
+
+theorem run_ctx_none (cid : Nat) (c : Cfg) (e : Env) (s : State) (h : (run cid c e s).2.2 ≠ .ok) :
+    (run cid c e s).2.1 = none := by
+  unfold run at h ⊢
+  generalize provisionContext cid c e.pp s = r1 at h ⊢
+  obtain ⟨s1, o1, e1⟩ := r1
+  cases e1 with
+  | some r => rfl
+  | none =>
+    cases o1 with
+    | none => rfl
+    | some ctx =>
+      dsimp only at h ⊢
+      generalize startApps cid e.blocked [] (order e.ps ctx.apps) s1 = r2 at h ⊢
+      obtain ⟨s2, b⟩ := r2
+      cases b with
+      | false => rfl
+      | true =>
+        dsimp only at h ⊢
+        generalize finishSettingUp ctx e.post s2 = r3 at h ⊢
+        obtain ⟨s3, ctx', b3⟩ := r3
+        cases b3 with
+        | false => rfl
+        | true => exact absurd rfl h
+
+/-- the invariant of reachable states -/
+structure Inv3 (s : State) : Prop where
+  bal : SB s (curLive s)
+  cbs : ∀ ctx, s.cur = some ctx → ctx.cbs = []
+
+theorem inv3_init : Inv3 State.init :=
+  ⟨⟨by simp [State.init], by simp [curLive, State.init], by simp [curLive, State.init],
+    by simp [State.init], by simp [curLive, State.init], by simp [State.init]⟩, by simp [State.init]⟩
+
+theorem Inv3.of_events {s s' : State} (h : Inv3 s) (he : s'.events = s.events) (hn : s'.nseq = s.nseq)
+    (hc : s'.cur = s.cur) : Inv3 s' := by
+  refine ⟨?_, fun ctx hx => h.cbs ctx (hc ▸ hx)⟩
+  unfold SB curLive
+  rw [he, hn, hc]
+  exact h.bal
+
+theorem inv3_changeTo {s : State} (h : Inv3 s) (c : Cfg) (e : Env) : Inv3 (changeTo c e s).1 := by
+  rcases C01.changeTo_cases c e s with ⟨_, h'⟩ | h' | ⟨s1, hq, h'⟩ | ⟨s1, r, hok, hq, h'⟩
+  · rw [h']; exact h.of_events rfl rfl rfl
+  · rw [h']; exact h.of_events rfl rfl rfl
+  · rw [h']
+    obtain ⟨s', ctx, hrun, rfl⟩ := C01.decodeAndRun_ok hq
+    have hb := run_bal s.next c e { s with raw := some c } (curLive s) (by exact h.bal)
+    rw [hrun] at hb
+    simp only at hb
+    obtain ⟨hcb, _, _, hsb⟩ := hb
+    have hu := C01.unsyncedStop_frame4 ({ s with raw := some c } : State).cur { s' with cur := some ctx }
+    have hstop := unsyncedStop_bal s.cur { s' with cur := some ctx } (nq ctx.live) h.cbs
+      (by rw [← curLive_eq]; exact hsb)
+    refine ⟨?_, ?_⟩
+    · unfold SB curLive
+      show Bal (unsyncedStop _ _).events (match (unsyncedStop _ _).cur with | none => [] | some ctx => nq ctx.live) (unsyncedStop _ _).nseq
+      rw [hu.cur]
+      exact hstop
+    · intro ctx' hx
+      have : (unsyncedStop ({ s with raw := some c } : State).cur { s' with cur := some ctx }).cur = some ctx' := hx
+      rw [hu.cur] at this
+      cases this
+      exact hcb
+  · rw [h']
+    -- a rejected attempt: decodeAndRun either did not run anything or ran and returned no context
+    unfold decodeAndRun at hq
+    split at hq
+    · simp at hq
+      obtain ⟨rfl, _⟩ := hq
+      exact h.of_events rfl rfl rfl
+    · have hb := run_bal s.next c e { s with raw := some c } (curLive s) (by exact h.bal)
+      have hf := C01.run_frame4 s.next c e { s with raw := some c }
+      have hnone := run_ctx_none s.next c e { s with raw := some c }
+      generalize hrun : run s.next c e { s with raw := some c } = q at hq hb hf hnone
+      obtain ⟨s', o, res⟩ := q
+      by_cases hres : res = .ok
+      · subst hres
+        obtain ⟨ctx, rfl, _⟩ := C01.run_ok hrun
+        simp at hq
+        exact absurd hq.2.symm hok
+      · have ho : o = none := hnone hres
+        subst ho
+        simp only at hb
+        have : s1 = s' := by
+          cases res <;> simp at hq hres ⊢ <;> exact hq.1.symm
+        subst this
+        refine ⟨?_, ?_⟩
+        · unfold SB curLive
+          show Bal s1.events (match s1.cur with | none => [] | some ctx => nq ctx.live) s1.nseq
+          rw [hf.cur]
+          exact hb
+        · intro ctx hx
+          have : s1.cur = some ctx := hx
+          rw [hf.cur] at this
+          exact h.cbs ctx this
+
+theorem inv3_bump {p : State × Res} (h : Inv3 p.1) : Inv3 (bump p).1 := h.of_events rfl rfl rfl
+
+theorem inv3_step {s : State} (h : Inv3 s) (op : Op) : Inv3 (step s op).1 := by
+  cases op with
+  | load c e => exact inv3_bump (inv3_changeTo h c e)
+  | patch a e =>
+    unfold step
+    cases s.raw with
+    | none => exact inv3_bump (p := (s, .errPath)) h
+    | some c0 =>
+      dsimp only
+      cases replaceApp a c0.apps with
+      | none => exact inv3_bump (p := (s, .errPath)) h
+      | some apps => exact inv3_bump (inv3_changeTo h _ e)
+  | del n e =>
+    unfold step
+    cases s.raw with
+    | none => exact inv3_bump (p := (s, .errPath)) h
+    | some c0 =>
+      dsimp only
+      cases removeApp n c0.apps with
+      | none => exact inv3_bump (p := (s, .errPath)) h
+      | some apps => exact inv3_bump (inv3_changeTo h _ e)
+  | junk => exact inv3_bump (p := (s, .errBody)) h
+  | validate c e =>
+    refine inv3_bump (p := validate c e s) ?_
+    unfold validate
+    have h1 := provisionContext_bal s.next c e.pp s (curLive s) h.bal
+    have hf := C01.provisionContext_frame s.next c e.pp s
+    generalize provisionContext s.next c e.pp s = q at h1 hf
+    obtain ⟨s1, o, r⟩ := q
+    cases r with
+    | some r =>
+      refine ⟨?_, fun ctx hx => h.cbs ctx (by have : s1.cur = some ctx := hx; rwa [hf.cur] at this)⟩
+      unfold SB curLive
+      show Bal s1.events (match s1.cur with | none => [] | some ctx => nq ctx.live) s1.nseq
+      rw [hf.cur]; exact h1.1 r rfl
+    | none =>
+      obtain ⟨ctx, hctx, hcb, _, _, hsb⟩ := h1.2 rfl
+      simp only at hctx
+      subst hctx
+      dsimp only
+      have hc := C01.cancel_frame ctx.cid ctx.cbs ctx.wkeys ctx.live s1
+      refine ⟨?_, fun ctx' hx => h.cbs ctx' (by
+        have : (cancel ctx.cid ctx.cbs ctx.wkeys ctx.live s1).cur = some ctx' := hx
+        rwa [hc.cur, hf.cur] at this)⟩
+      unfold SB curLive
+      show Bal (cancel _ _ _ _ s1).events (match (cancel _ _ _ _ s1).cur with | none => [] | some ctx => nq ctx.live) (cancel _ _ _ _ s1).nseq
+      rw [hc.cur, hf.cur, hcb]
+      exact cancel_all_bal _ _ _ _ _ hsb
+  | stop =>
+    refine inv3_bump (p := (_, .ok)) ?_
+    refine ⟨?_, fun ctx hx => by cases hx⟩
+    have := unsyncedStop_bal s.cur s [] h.cbs (by rw [List.append_nil, ← curLive_eq]; exact h.bal)
+    exact this
+
+theorem inv3_runOps : ∀ (ops : List Op) (s : State), Inv3 s → Inv3 (runOps s ops)
+  | [], _, h => h
+  | o :: os, s, h => inv3_runOps os _ (inv3_step h o)
 
 end CaddyModel.C03
